@@ -412,7 +412,7 @@ Proof.
   - destruct o; eexists _, _; split; reflexivity.
   - apply andb_prop in Hc as [Hc _]. apply andb_prop in Hc as [Hc _]. apply andb_prop in Hc as [Hc1 _].
     rewrite <- app_assoc. apply IHe. exact Hc1.
-  - rewrite <- app_assoc. apply IHe. exact Hc.
+  - rewrite <- app_assoc. apply pparen_head. apply IHe. exact Hc.
   - apply andb_prop in Hc as [Hc _]. apply andb_prop in Hc as [Hc1 _]. rewrite <- app_assoc. apply IHe1. exact Hc1.
   - destruct kws; [|discriminate]. apply andb_prop in Hc as [Hc1 _]. rewrite <- app_assoc. apply IHe. exact Hc1.
   - eexists _, _. split; reflexivity.
@@ -445,7 +445,7 @@ Proof.
   - destruct o; try reflexivity. exfalso. vm_compute in Hb, Hs. lia.
   - apply andb_prop in Hc as [Hc _]. apply andb_prop in Hc as [Hc _]. apply andb_prop in Hc as [Hc1 _].
     rewrite <- app_assoc. apply IHe; [exact Hc1|vm_compute; lia].
-  - rewrite <- app_assoc. apply IHe; [exact Hc|vm_compute; lia].
+  - rewrite <- app_assoc. apply pparen_not. intros _. apply IHe; [exact Hc|vm_compute; lia].
   - apply andb_prop in Hc as [Hc _]. apply andb_prop in Hc as [Hc1 _]. rewrite <- app_assoc. apply IHe1; [exact Hc1|vm_compute; lia].
   - destruct kws; [|discriminate]. apply andb_prop in Hc as [Hc1 _]. rewrite <- app_assoc. apply IHe; [exact Hc1|vm_compute; lia].
   - reflexivity.
@@ -681,6 +681,11 @@ Proof.
       * exact Hsub.
       * apply Ev_loop_flag; [exact (edge_chain _ _ He)|exact Hloop].
   - (* Attribute *) cbn [node_prec] in Hp. rewrite <- app_assoc. cbn [app].
+    destruct (int_literal e) eqn:Ei.
+    { cbn [pparen app]. rewrite <- app_assoc. cbn [app].
+      eapply Ev_expr_atom; [reflexivity| |apply Ev_loop_dot; exact Hloop].
+      apply Ev_atom_paren. apply closed_child; [exact Hc|exact (IHe Hc)|reflexivity|left; lia]. }
+    cbn [pparen].
     apply (child_of_A e Hc (IHe Hc) slot_Attribute_value n).
     + intros Hle. split.
       * assert (G : node_prec e <= node_prec_Attribute).
